@@ -222,7 +222,7 @@ class Tak(Family):
         for v in range(1, 17):
             yield "channels", base(channels=v)
             yield "channels-ext", base(channels=v, ext=1, speakers=0)
-            if 80 + 6 + 6 * v <= 160:      # a larger block is refused by the size check of TAKInfo._parse_stream_info (see MANIFEST note)
+            if 80 + 6 + 6 * v <= 160:      # larger blocks are not judged: the layout is known only from ffmpeg's reader (MANIFEST note)
                 yield "channels-ext-speakers", base(channels=v, ext=1, speakers=1)
         for a in range(0, 64, 9):
             for b in range(0, 16, 5):
